@@ -563,9 +563,11 @@ def make_program(case):
     if case.get("prog") is not None:
         return case["prog"], 0, {}
     last = None
+    # the feature flags are a function of the sub-seed alone, so that regenerating a rejected program does not
+    # bias the share of programs a flag is on in
+    flags = mg.make_flags(random.Random("%s:flags" % case["subseed"]), case.get("forced"))
     for attempt in range(40):
         rng = random.Random("%s:%d" % (case["subseed"], attempt))
-        flags = mg.make_flags(rng, case.get("forced"))
         prog = mg.gen_program(rng, flags)
         last = prog
         try:
@@ -626,7 +628,7 @@ def run_case(ctx, case):
         # stored witness of a listed finding: already minimal, key it as it is
         _report(res, prog, feats, gtoks, verdict, o)
         return res
-    _analyse(res, prog, d, verdict, o, expected)
+    _analyse(res, prog, d, verdict, o, expected, ctx.tier)
     return res
 
 
@@ -651,7 +653,7 @@ def _report(res, small, feats, gt, v2, o2, seen=None):
                   features="+".join(sorted(salient(feats))), diff=diff_kind(gt, o2.tokens), prog=small)
 
 
-def _analyse(res, prog, d, verdict, o, expected):
+def _analyse(res, prog, d, verdict, o, expected, tier="thorough"):
     """localise to use statements, minimise, key"""
     units = prog["units"]
     uses = [i for i, u in enumerate(units) if u["k"] == "use"]
@@ -670,7 +672,7 @@ def _analyse(res, prog, d, verdict, o, expected):
     seen = set()
     done = 0
     for sub, v in failing:
-        if done >= MAX_MINIMISED:
+        if done >= (MAX_MINIMISED if tier == "thorough" else 1):
             res.count("mismatches_not_minimised", 1)
             continue
         done += 1
